@@ -146,15 +146,25 @@ func runC17(c *core.Ctx) {
 		}
 		c.Analysed(core.FuncName(m))
 		got := "?"
-		core.Instrs(m, func(ins ssa.Instruction) {
-			if call, isC := ins.(*ssa.Call); isC {
-				if g := core.Callee(&call.Call); g != nil && (g == doNew["DoNewRequest"] || g == doNew["DoNewRequestWithBodyOptions"]) {
-					if s, ok := strConst(call.Call.Args[3]); ok {
-						got = s
-					}
-				}
+		// (the request call may sit in an unexported helper that is handed the verb)
+		for _, fd := range core.DeepFind(p, m, func(ins ssa.Instruction) bool {
+			call, isC := ins.(*ssa.Call)
+			if !isC {
+				return false
 			}
-		})
+			g := core.Callee(&call.Call)
+			return g != nil && (g == doNew["DoNewRequest"] || g == doNew["DoNewRequestWithBodyOptions"])
+		}) {
+			call := fd.Ins.(*ssa.Call)
+			v, st := core.Up(core.Unwrap(call.Call.Args[3]), fd.Stack)
+			if len(st) != 0 {
+				got = "?"
+				continue
+			}
+			if s, ok := strConst(core.Unwrap(v)); ok {
+				got = s
+			}
+		}
 		c.Check(got == c17verbs[v], "R1", "SimpleHTTPDef."+m.Name(), p.Pos(m.Pos()), "sends "+got, fmt.Sprintf("method %s sends HTTP %q, expected %q", m.Name(), got, c17verbs[v]))
 	}
 	for _, f := range p.Funcs {
